@@ -25,6 +25,23 @@ theorem evalB_cons {σ : Type} (P : Prims σ) (env : Env) (w : σ) (s : Stmt) (r
     obtain ⟨e, w', c⟩ := x
     cases c <;> rfl
 
+theorem evalS_ifs_true {σ : Type} (P : Prims σ) (env env1 : Env) (w w1 w2 : σ) (init : List Stmt) (cond : Expr)
+    (thn els : List Stmt) (hinit : evalB P env w init = some (env1, w1, .norm))
+    (hc : evalE P env1 w1 cond = some (.bool true, w2)) :
+    evalS P env w (.ifs init cond thn els) =
+      (evalB P env1 w2 thn).map (fun (e, w3, c) => (Env.leave e env.length, w3, c)) := by
+  simp only [evalS, hinit, hc]
+
+theorem evalS_ifs_false {σ : Type} (P : Prims σ) (env env1 : Env) (w w1 w2 : σ) (init : List Stmt) (cond : Expr)
+    (thn els : List Stmt) (hinit : evalB P env w init = some (env1, w1, .norm))
+    (hc : evalE P env1 w1 cond = some (.bool false, w2)) :
+    evalS P env w (.ifs init cond thn els) =
+      (evalB P env1 w2 els).map (fun (e, w3, c) => (Env.leave e env.length, w3, c)) := by
+  simp only [evalS, hinit, hc]
+
+theorem evalB_nil {σ : Type} (P : Prims σ) (env : Env) (w : σ) : evalB P env w [] = some (env, w, .norm) := by
+  rw [evalB]
+
 open Lean.Parser.Tactic in
 /-- unfold the MiniGo interpreter (on a concrete program) together with the given definitions -/
 macro "go_simp" "[" ts:simpLemma,* "]" : tactic =>
